@@ -304,6 +304,20 @@ theorem trail_mem_modelItems {fl : Field → Val → Outcome Val} {kvs : List (V
 
 /-! ### inversion of the container loaders -/
 
+theorem trail_loadLiteral_err {strict : Bool} {vals : List Val} {d : Val} {e : LErr}
+    (h : loadLiteral strict vals d = .err e) :
+    e = LErr.leaf "BadVariantLoadError" d ∧ (loadLiteral strict vals d).isOk = false := by
+  rw [h]
+  refine ⟨?_, rfl⟩
+  unfold loadLiteral at h
+  generalize (if (strict && boolSensitive vals) = true then typedMem d vals else Val.memOf d vals) = hit at h
+  cases hit <;> simp at h
+  exact h.symm
+
+theorem trail_loadLiteral_ok {strict : Bool} {vals : List Val} {d v : Val}
+    (h : loadLiteral strict vals d = .ok v) : (loadLiteral strict vals d).isOk = true := by
+  rw [h]; rfl
+
 theorem trail_loadIter_err {cfg : Cfg} {f : Factory} {elem : Val → Outcome Val} {d : Val} {e : LErr}
     (h : loadIter cfg f elem d = .err e) :
     (strictExcluded cfg d = true ∧ e = LErr.leaf "ExcludedTypeLoadError" d) ∨
